@@ -145,3 +145,5 @@ func cmdDet(args []string) int {
 	fmt.Printf("{\"cases\":%d,\"executions\":%d,\"diffs\":%d}\n", len(cases), total, len(diffs))
 	return 0
 }
+
+func init() { commands["det"] = cmdDet }
